@@ -126,8 +126,12 @@ def parse_embedded_scalar(scalar, version=LATEST_VER):
         return float('nan')
     # Conversion to dict of float value turn them into float 
     # so regex won't work... better just return them
-    elif isinstance(scalar, float) or isinstance(scalar, six.integer_types):
+    elif isinstance(scalar, float):
         return scalar
+    elif isinstance(scalar, six.integer_types):
+        # Haystack numbers are floating point; an int would be written
+        # differently ("0" rather than "0.0") by the ZINC dumper.
+        return float(scalar)
 
     # Is it a number?
     match = NUMBER_RE.match(scalar)
